@@ -112,6 +112,38 @@ func (w *mxworld) mapply(o op) int {
 			return resReadyTrue
 		}
 		return resReadyFalse
+	case "initclosefin", "initcloserst":
+		// the upstream closes the fresh connection on accept and Connect() returns only after mosn noticed: the close event
+		// is delivered between the successful dial and the store of the client in the slot
+		mode, ev := "fin", "EvRemote"
+		if o.K == "initcloserst" {
+			mode, ev = "rst", "EvReadErr"
+		}
+		nc, nf := len(w.clients), w.failedDials
+		w.armWindow(mode)
+		ok := w.pool.CheckAndInit(variable.NewVariableContext(context.Background()))
+		w.wait("init", 2*time.Second, func() bool {
+			st, _, _ := sx.VerifMultiplexState(w.pool, 0)
+			return st != 1 || sx.VerifMultiplexShutdown(w.pool)
+		})
+		time.Sleep(50 * time.Microsecond)
+		w.armWindow("")
+		w.settleWindow()
+		w.registerNewClients()
+		if len(w.clients) > nc {
+			c := w.clients[nc]
+			// the close event (possibly waiting for the pool's lock while init stored the client) runs to completion
+			waitFor(100*time.Millisecond, func() bool { st, ci := w.slot(); return !(ci == c.idx && st == 2) })
+			w.lastCoq = []string{"MInit DialOk", fmt.Sprintf("MConnClose %d %s", nc, ev)}
+		} else if w.failedDials > nf {
+			w.lastCoq = []string{"MInit DialRefused"} // the RST reached the dialler first: a failed dial
+		} else {
+			w.lastCoq = []string{"MInit DialOk"}
+		}
+		if ok {
+			return resReadyTrue
+		}
+		return resReadyFalse
 	case "new":
 		ctx := buffer.NewBufferPoolContext(variable.NewVariableContext(context.Background()))
 		l := &lease{idx: len(w.leases), tok: len(w.leases) + 100, ctx: ctx, cli: -1}
@@ -180,9 +212,9 @@ func (w *mxworld) mapply(o op) int {
 }
 
 func (w *mxworld) menabled(full bool) []op {
-	ops := []op{{K: "init"}, {K: "new"}}
+	ops := []op{{K: "init"}, {K: "new"}, {K: "initclosefin"}}
 	if full {
-		ops = append(ops, op{K: "initfail"})
+		ops = append(ops, op{K: "initfail"}, op{K: "initcloserst"})
 	}
 	for _, l := range w.leases {
 		if l.live() {
@@ -253,7 +285,7 @@ func (w *mxworld) mcheck(fs *finderState, o op, ob mobs) []finding {
 				add("stream-not-reset-after-connection-close"+why+":after-"+opClass, fmt.Sprintf("connection %d is closed but %d of its streams were never reset/destroyed", c.idx, nl))
 			}
 			if ob.SlotCli == c.idx && ob.SlotState == 2 && fs.first(fmt.Sprint("closed-in-pool", c.idx)) {
-				add("closed-connection-in-pool:after-"+opClass, fmt.Sprintf("the pool's slot holds connection %d as Connected although it is closed", c.idx))
+				add("closed-connection-stored-as-connected:after-"+opClass, fmt.Sprintf("the pool's slot holds connection %d as Connected although it is closed", c.idx))
 			}
 			continue
 		}
@@ -295,6 +327,7 @@ func hungContext(w *mxworld, o op) string {
 }
 
 type mxhist struct {
+	coqOps   [][]string
 	hung     bool
 	maxReq   uint64
 	ops      []op
@@ -314,7 +347,7 @@ func (h *mxhist) key() string {
 
 func mxOpCoq(o op) string {
 	switch o.K {
-	case "init":
+	case "init", "initclosefin", "initcloserst":
 		return "MInit DialOk"
 	case "initfail":
 		return "MInit DialRefused"
@@ -382,7 +415,8 @@ func (ob mobs) coq() string {
 func (h *mxhist) coq() string {
 	var steps []string
 	for i, o := range h.ops {
-		steps = append(steps, fmt.Sprintf("(%s, %s)", mxOpCoq(o), h.obs[i].coq()))
+		_ = o
+		steps = append(steps, fmt.Sprintf("(%s, %s)", CoqList(h.coqOps[i]), h.obs[i].coq()))
 	}
 	return fmt.Sprintf("(%s, [%s])", CoqZ(int64(h.maxReq)), strings.Join(steps, ";\n   "))
 }
@@ -415,12 +449,18 @@ func runMx(maxReq uint64, depth int, full bool, pick func(step int, en []op) *op
 		// watchdog: an operation that never returns (a self-deadlock inside the pool / stream layer) is a finding
 		resCh := make(chan int, 1)
 		oc := *o
+		w.lastCoq = nil
 		go func() { resCh <- w.mapply(oc) }()
 		var res int
 		select {
 		case res = <-resCh:
+			if w.lastCoq == nil {
+				w.lastCoq = []string{mxOpCoq(*o)}
+			}
+			h.coqOps = append(h.coqOps, w.lastCoq)
 		case <-time.After(4 * time.Second):
 			h.ops = append(h.ops, *o)
+			h.coqOps = append(h.coqOps, []string{mxOpCoq(*o)})
 			h.obs = append(h.obs, mobs{Res: resOther, ResCli: -1, SlotState: -9, SlotCli: -1})
 			h.findings = append(h.findings, finding{"multiplex:operation-never-returned:" + o.K + hungContext(w, *o), fmt.Sprintf("%s did not return within 4 s", o)})
 			h.timeouts = append(w.timeouts, "hung:"+o.K)
